@@ -27,3 +27,12 @@ base["checks"] = checks
 base["not_applicable"] = na
 (HERE / "MANIFEST.json").write_text(json.dumps(base, indent=1) + "\n")
 print(f"MANIFEST.json: {len(checks)} checks, {len(na)} not_applicable")
+
+# known_findings.json = concatenation of findings.d/*.json (committed; never written by a check)
+allf = []
+for f in sorted((HERE / "findings.d").glob("*.json")):
+    allf += json.loads(f.read_text()).get("findings", [])
+(HERE / "known_findings.json").write_text(json.dumps({
+    "comment": "Genuine defects of utilmeta/utype found by the checks. status=known: still present; the check prints KNOWN-FINDING and exits 0 for exactly this class of input. status=fixed: repaired by a 'fix:' commit in /repo (line: 'fixed: property=<id> <commit> <what failed>'); a fixed entry suppresses nothing. Assembled from findings.d/*.json by tools/mkmanifest.py; never written at run time.",
+    "findings": allf}, indent=1) + "\n")
+print(f"known_findings.json: {len(allf)} entries")
